@@ -360,3 +360,57 @@ func replayExtraConfig(n *Native, job *Job, v *Violation) (ReplayResult, bool) {
 	return ReplayResult{Cmd: "ti " + strings.Join(args, " ") + " with and without .ti-config/zz_extra.json", Reproduced: outA != outB,
 		Observed: fmt.Sprintf("without the extra file: %q; with it: %q", outA, outB)}, true
 }
+
+func hasLine(out, prefix, suffix string) bool {
+	for _, l := range strings.Split(strings.TrimSuffix(out, "\n"), "\n") {
+		if strings.HasPrefix(l, prefix) && strings.HasSuffix(l, suffix) {
+			return true
+		}
+	}
+	return false
+}
+
+// replayDefineInfo re-judges C22 counterexamples natively (flags from the witness).
+func replayDefineInfo(n *Native, job *Job, v *Violation) (ReplayResult, bool) {
+	if v.Kind != "assert" {
+		return ReplayResult{}, false
+	}
+	src := v.Witness["src"]
+	conc, okc := concretizeSym(src, v.Witness)
+	if !okc {
+		return ReplayResult{Observed: "cannot make the skeleton concrete"}, true
+	}
+	args := []string{"./a.rb"}
+	prefix, suffix := v.Witness[v.ID+".prefix"], v.Witness[v.ID+".suffix"]
+	if v.ID == "C22-hover" {
+		args = append(args, "--hover", "--row="+v.Witness["C22-hover.row"])
+		prefix = "%" + v.Witness["C22-hover.method"] + ":::"
+	} else {
+		args = append(args, strings.Fields(v.Witness["flags"])...)
+	}
+	out, _, _ := n.RunTi(map[string]string{"a.rb": conc}, args, nativeConfigFor(n, job, src))
+	v.Witness["native-program"] = conc
+	return ReplayResult{Cmd: "ti " + strings.Join(args, " "), Reproduced: !hasLine(out, prefix, suffix),
+		Observed: fmt.Sprintf("expected a line %q...%q in %q", prefix, suffix, tail(out, 600))}, true
+}
+
+// replayCallGraph re-judges C24 counterexamples natively.
+func replayCallGraph(n *Native, job *Job, v *Violation) (ReplayResult, bool) {
+	if v.Kind != "assert" {
+		return ReplayResult{}, false
+	}
+	src := v.Witness["src"]
+	conc, okc := concretizeSym(src, v.Witness)
+	if !okc {
+		return ReplayResult{Observed: "cannot make the skeleton concrete"}, true
+	}
+	args := append([]string{"./a.rb"}, strings.Fields(v.Witness["flags"])...)
+	out, _, _ := n.RunTi(map[string]string{"a.rb": conc}, args, nativeConfigFor(n, job, src))
+	v.Witness["native-program"] = conc
+	want := "  - total callers: 1"
+	if v.ID == "C24-row" {
+		want = "    - call point: ./a.rb:" + v.Witness["C24.callrow"]
+	}
+	return ReplayResult{Cmd: "ti " + strings.Join(args, " "), Reproduced: !hasLine(out, want, ""),
+		Observed: fmt.Sprintf("expected a line %q in %q", want, tail(out, 700))}, true
+}
